@@ -448,7 +448,7 @@ HStep(a) ==
     /\ UNCHANGED <<mgr, str, wr, net, rbuf, tp, rpc, nrpc, sctx, connmu, wire, hmeta>>
 
 RelW(e, how) ==
-    /\ Bound /\ "relw" \in StimKinds
+    /\ Bound /\ "relw" \in StimKinds /\ (how = "err" => "relwerr" \in StimKinds)
     /\ tp[e].closed = 0 /\ ~tp[e].failed
     /\ \E t \in AllThreads : EpOf(t) = e /\ thr[t].in.pc = "tw" /\
          LET p == TWDone(thr[t].in, wr[e], how) IN
